@@ -3,7 +3,8 @@ From Coq Require Import NArith List Lia ZArith Bool.
 Require Import SDS.Model.Mach SDS.Model.Bits SDS.Model.Raw SDS.Model.IntVec SDS.Model.RL SDS.gen.Consts SDS.gen.Funs.
 Require Import SDS.Spec.Runs.
 Require Import SDS.Proofs.BitsProof SDS.Proofs.RLIntVec SDS.Proofs.RLVarint SDS.Proofs.RLIndex SDS.Proofs.RLRep
-               SDS.Proofs.RunsLemmas SDS.Proofs.RLBuild SDS.Proofs.RLIter SDS.Proofs.RLQuery SDS.Proofs.RLQuery2.
+               SDS.Proofs.RunsLemmas SDS.Proofs.RLBuild SDS.Proofs.RLIter SDS.Proofs.RLQuery SDS.Proofs.RLQuery2
+               SDS.Proofs.RLQuery3 SDS.Proofs.RLQuery4.
 Import ListNotations.
 Open Scope N_scope.
 Require Import ZifyBool ZifyN ZifyNat.
@@ -92,4 +93,27 @@ Proof.
   intros Hs He HL Hn. apply runs_srt_sorted in Hs. rewrite runs_end_spec in He.
   destruct (rl_build_ok m R L Hs He ltac:(lia) Hn) as (v & BS & Hb & Hok & HF).
   exists v, BS. auto.
+Qed.
+
+(* the derived iterators: every prefix of their output *)
+Theorem rl_iterators m R L n :
+  runs_sorted 0 R -> runs_end R <= L -> L <= 2 ^ 64 - 1 -> lenN R < 2 ^ 56 ->
+  exists v,
+    rl_build m (rl_ops R L) = Ok (v, map (fun _ => true) R ++ [true]) /\
+    (forall r, r < 2 ^ 64 ->
+       (let* s := rl_select_iter m v r in oi_take n m v s) = Ok (ones_from_rank n (maximal R) r)) /\
+    (forall r, r < 2 ^ 64 ->
+       (let* s := rl_select_zero_iter m v r in zi_take n m v s) = Ok (zeros_from_rank n (maximal R) L r)) /\
+    (let* s := rl_one_iter v in oi_take n m v s) = Ok (ones_from_rank n (maximal R) 0) /\
+    (let* s := rl_zero_iter m v in zi_take n m v s) = Ok (zeros_from_rank n (maximal R) L 0) /\
+    (let* s := rl_iter v in bi_take n m v s) = Ok (bits_from n (maximal R) L 0).
+Proof.
+  intros Hs He HL Hn. apply runs_srt_sorted in Hs. rewrite runs_end_spec in He.
+  destruct (rl_build_ok m R L Hs He ltac:(lia) Hn) as (v & BS & Hb & Hok & HF).
+  exists v. split; [exact Hb|].
+  split; [intros r _; rewrite <- HF; exact (select_iter_spec m v BS L Hok r n)|].
+  split; [intros r _; rewrite <- HF; exact (select_zero_iter_spec m v BS L Hok r n)|].
+  split; [rewrite <- HF; exact (one_iter_spec m v BS L Hok n)|].
+  split; [rewrite <- HF; exact (zero_iter_spec m v BS L Hok n)|].
+  rewrite <- HF; exact (iter_spec m v BS L Hok n).
 Qed.
